@@ -192,6 +192,10 @@ class Tracker:
         self.now = c["t0"]
         self.last = 0
         self.locks = {}
+        if c.get("gen"):
+            self.last = c["gen"]["last"]
+            for g in c["gen"]["locks"]:
+                self.locks[g["id"]] = {"owner": g["o"], "denom": g["n"], "amt": g["amt"], "dur": g["dur"], "end": g["end"]}
         self.bal = [[c["fund"][a][n] for n in range(3)] for a in range(NACC)]
         self.force = set(c["force"])
         self.ends = []
@@ -272,7 +276,20 @@ def gen_case(r, tier, nops=None, all_full=False):
     force = [a for a in (1, 2, 3) if r.chance(1, 3)]
     adurs = sorted(set([0] + [d + e for d in lockdurs for e in (-1, 0, 1)]))
     c = {"base": BASE, "t0": t0, "denoms": DENOMS, "nacc": NACC, "fund": fund, "force": force, "adurs": adurs, "durs": durs, "lockdurs": lockdurs, "ops": []}
+    if r.chance(1, 4):
+        # a genesis with locks (keeper.InitGenesis: SetLastLockID + InitializeAllLocks): unique ids with gaps, some unlocking, some matured
+        ids = sorted(r_sample(r, 12, r.range(1, 6)))
+        gl = []
+        for i_ in ids:
+            d = r.choice(lockdurs)
+            end = 0 if r.chance(1, 2) else max(1, t0 + r.choice([-d, -1, 0, 1, d - 1, d, 2 * d]))
+            o_ = r.range(1, 3)
+            gl.append({"id": i_, "o": o_, "n": r.range(1, 3), "amt": r.choice([1, 7, 1000, r.range(1, 10**5)]), "dur": d, "end": end,
+                       "rr": r.choice([0, 0, r.choice([x for x in (1, 2, 3, 4) if x != o_])])})
+        c["gen"] = {"last": ids[-1] + r.choice([0, 0, 3]), "locks": gl}
     tr = Tracker(c)
+    if c.get("gen"):
+        tr.ends += [g["end"] for g in c["gen"]["locks"] if g["end"]]
     if nops is None:
         nops = r.range(20, 80) if tier == "quick" else r.range(20, 120)
     pfull = 8
@@ -335,8 +352,10 @@ def gen_case(r, tier, nops=None, all_full=False):
             o = {"k": "unlock", "id": i_}
         elif x < 72:
             o = {"k": "withdraw", "cnt": r.choice([0, 0, 1, 2, 1000])}
-        elif x < 76:
+        elif x < 75:
             o = {"k": "endblock", "h": r.choice([120, 240, 0, 121, 119])}
+        elif x < 76:
+            o = {"k": "rebuild", "n": r.range(1, 3)}
         elif x < 80:
             i_ = pick(live)
             l = tr.locks.get(i_)
@@ -421,6 +440,12 @@ def coq_op(o):
     raise ValueError(k)
 
 
+def coq_xop(o):
+    if o["k"] == "rebuild":
+        return "XRebuild %s" % zlit(o["n"])
+    return "XOp (%s)" % coq_op(o)
+
+
 def coq_q(q, keep):
     if q is None or not keep:
         return "None"
@@ -428,9 +453,12 @@ def coq_q(q, keep):
 
 
 def coq_case(c, expect, keep=None):
-    ops = ";\n    ".join("(%s, %s)" % (coq_op(o), coq_q(o.get("q"), True if keep is None else keep[i])) for i, o in enumerate(c["ops"]))
+    ops = ";\n    ".join("(%s, %s)" % (coq_xop(o), coq_q(o.get("q"), True if keep is None else keep[i])) for i, o in enumerate(c["ops"]))
     fund = "[" + "; ".join(zlist(row) for row in c["fund"]) + "]"
-    return "mkCase %s %d %d %s %s %s\n   [%s]\n   %s" % (zlit(c["t0"]), len(c["denoms"]), c["nacc"], fund, zlist(c["force"]), zlist(c["adurs"]), ops, zlist(expect))
+    g = c.get("gen") or {"last": 0, "locks": []}
+    gl = "[" + "; ".join("mkLock %s %s %s %s %s %s %s" % tuple(zlit(x[k]) for k in ("id", "o", "n", "amt", "dur", "end", "rr")) for x in g["locks"]) + "]"
+    return "mkCase %s %d %d %s %s %s %s %s\n   [%s]\n   %s" % (zlit(c["t0"]), len(c["denoms"]), c["nacc"], fund, zlist(c["force"]), zlist(c["adurs"]),
+                                                                  zlit(g["last"]), gl, ops, zlist(expect))
 
 
 # ---------------------------------------------------------------------------------------------
@@ -545,7 +573,7 @@ def check_step(c, o, code, prev, cur):
     v = []
     nd = len(c["denoms"])
     if code != 0:
-        same = all(prev[k] == cur[k] for k in ("now", "last", "mod", "bal", "locks", "acc"))
+        same = all(prev[k] == cur[k] for k in ("now", "last", "mod", "bal", "locks", "acc") if prev[k] is not None)
         if not same:
             v.append({"what": "operation %s failed (code %d) but the state changed" % (o["k"], code), "rec": {"kind": "atomicity"}})
         return v
@@ -596,6 +624,14 @@ def oracle_case(c, obs):
     v = []
     nd = len(c["denoms"])
     prev = {"now": c["t0"], "last": 0, "mod": [0] * nd, "nmod": 0, "bal": [list(r) for r in c["fund"]], "locks": {}, "bad": [], "acc": [[0] * len(c["adurs"])] * (nd + 1), "queries": []}
+    if c.get("gen"):
+        # the genesis is the given starting point: its locks are live, the module account was funded with their coins
+        prev["last"] = c["gen"]["last"]
+        for g in c["gen"]["locks"]:
+            prev["locks"][g["id"]] = {"id": g["id"], "owner": g["o"], "denom": g["n"], "amt": g["amt"], "dur": g["dur"], "end": g["end"], "rr": g["rr"],
+                                      "rre": g["rr"] or g["o"]}
+            prev["mod"][g["n"] - 1] += g["amt"]
+        prev["acc"] = None
     stats = {"ok": {}, "err": {}, "released": 0, "splits": 0, "queries": 0}
     for i, (o, code, flat) in enumerate(zip(c["ops"], obs["codes"], obs["flat"])):
         cur = parse_obs(c, o, flat)
